@@ -162,7 +162,8 @@ CELL_MD = {0: {}, 1: {"collapsed": True, "scrolled": False},
            2: {"tags": ["a", "b"], "nested": {"k": [1, {"z": None}], "f": 1.5}, "collapsed": False},
            3: {"tags": ["a", "slow", "gpu", "shared", "reviewed", "b"], "nested": {"k": [1, {"z": None}], "f": 1.5},
                "collapsed": False},
-           4: {"tags": ["a", "shared", "b"], "nested": {"k": [1, {"z": None}], "f": 2.5}, "collapsed": True},
+           # (variants 3 and 4 both add the tag "slow", at different places of the list)
+           4: {"tags": ["a", "shared", "b", "slow"], "nested": {"k": [1, {"z": None}], "f": 2.5}, "collapsed": True},
            # left behind by an earlier conflicted merge (metadata strategy record-conflict)
            5: {"tags": ["a", "b"], "collapsed": False,
                "nbdime-conflicts": {"local_diff": [{"op": "add", "key": "collapsed", "value": True}],
